@@ -185,3 +185,7 @@ Theorem linear_trend_lsq assign template rest q qv r ks a b p :
                     value_at inject_Z p inst = Some y -> y == a * t + b) ->
   exists v y, num_of inject_Z qv = Some v /\ get p r = Some (TF y) /\ y == a * v + b.
 Proof. apply linear_trend. exact linreg_exact_on_affine. Qed.
+
+(* ---------- the leaf kind of the code as it is (Gen.spline_returns_float, regenerated from /repo) ---------- *)
+Lemma leaf_code (m : method) : leaf_F m = @TF PrimFloat.float.
+Proof. destruct m; reflexivity. Qed.
